@@ -120,7 +120,9 @@ impl InlineTypeResolver {
     base_name: &str,
     kind: UnionKind,
   ) -> Result<ConversionOutput<TypeRef>> {
-    if let Some(name) = self.find_union_by_refs(refs) {
+    if schema.discriminator.is_none()
+      && let Some(name) = self.find_union_by_refs(refs)
+    {
       return Ok(ConversionOutput::new(self.type_ref(&name)));
     }
 
